@@ -328,7 +328,10 @@ func (e *kvElection) verifyLeadershipAfterReconnect() {
 	// Resume heartbeat loop if it was stopped
 	// Note: Heartbeat loop should resume automatically, but we verify
 	// Update status to Connected after successful verification
-	if e.connectionMonitor != nil {
+	// Only a connection that is still in the RECONNECTED state is promoted to
+	// CONNECTED: a disconnect (or close) that arrived while the verification was
+	// running has armed a new grace period, which must not be defused here.
+	if e.connectionMonitor != nil && e.connectionMonitor.Status() == ConnectionStatusReconnected {
 		e.connectionMonitor.SetStatus(ConnectionStatusConnected)
 		// Update connection status metric
 		if e.cfg.Metrics != nil {
